@@ -128,11 +128,15 @@ func TestUnwrapPairsExhaustive(t *testing.T) {
 // TestUnwrapLargeStates samples previous results far above 2^17 (reached through the API) against every input.
 func TestUnwrapLargeStates(t *testing.T) {
 	rec := kit.NewRecorder("C20", "unwrap-large-states",
-		"random previous results up to 2^31 (biased to multiples of 2^15 +-2) x all 65536 inputs; non-trivial = state within 2 of a multiple of 2^15")
+		"random previous results up to 2^35 (biased to multiples of 2^15 +-2 and to multiples of 2^32 +-70000) x all 65536 inputs; non-trivial = state within 2 of a multiple of 2^15 or within 70000 of a multiple of 2^32")
 	rapid.Check(t, func(t *rapid.T) {
 		k := rapid.Int64Range(0, 1<<16).Draw(t, "k")
 		off := rapid.Int64Range(-3, 3).Draw(t, "off")
-		s := rapid.OneOf(rapid.Just(k*half+off), rapid.Int64Range(0, 1<<31)).Draw(t, "s")
+		// also far beyond 2^31: around whole multiples of 2^32 (65536 wrap-arounds, where a wrap count kept in 16 bits or a 32-bit
+		// intermediate comes back to zero) and anywhere up to 2^35
+		k32 := rapid.Int64Range(1, 8).Draw(t, "k32")
+		off32 := rapid.OneOf(rapid.Int64Range(-70000, 70000), rapid.SampledFrom([]int64{-65536, -65535, -32769, -32768, -32767, -1, 0, 1, 32767, 32768, 65535, 65536})).Draw(t, "off32")
+		s := rapid.OneOf(rapid.Just(k*half+off), rapid.Int64Range(0, 1<<31), rapid.Just(k32<<32+off32), rapid.Just(k32<<32+off32), rapid.Int64Range(1<<31, 1<<35)).Draw(t, "s")
 		if s < 0 {
 			s = 0
 		}
@@ -145,7 +149,8 @@ func TestUnwrapLargeStates(t *testing.T) {
 			}
 		}
 		m := s % half
-		rec.Case(uint64(s), m <= 2 || m >= half-2, []string{"state"}, func() any { return map[string]any{"previous": s, "inputs": "all 65536"} })
+		m32 := s % (1 << 32)
+		rec.Case(uint64(s), m <= 2 || m >= half-2 || (s > 1<<31 && (m32 <= 70000 || m32 >= 1<<32-70000)), []string{"state", fmt.Sprintf("beyond-2^31=%v", s > 1<<31)}, func() any { return map[string]any{"previous": s, "inputs": "all 65536"} })
 	})
 }
 
